@@ -162,7 +162,14 @@ impl<'a> DataParser<'a> {
             return;
         }
 
-        if self.current_element.len() > 0 {
+        // Outside of a quoted string, whitespace alone (e.g. between a closing
+        // quote or a trailing comma and the end of the items) isn't an element.
+        let has_pending_element = if self.state == ParseState::InDoubleQuotedString {
+            self.current_element.len() > 0
+        } else {
+            !self.current_element.trim().is_empty()
+        };
+        if has_pending_element {
             self.push_current_element();
         } else if self.elements.len() == 0 {
             self.push_current_element();
